@@ -201,17 +201,27 @@ Theorem C08_even_odd_no_crash : forall addr s, body_even addr <> Crash s /\ body
 Proof. exact (fun addr s => conj (even_no_crash addr s) (odd_no_crash addr s)). Qed.
 Print Assumptions C08_even_odd_no_crash.
 
-(* a // b and a % b under try/except ZeroDivisionError; 2 ** b and << >> only with a non-negative count *)
+(* a // b and a % b under try/except ZeroDivisionError; shifts only with a non-negative count.  Since fix a3755b4 the shifts go
+   through times_power_of_two, which REFUSES a count beyond MAX_SHIFT (2**16) by raising MemoryError: that refusal is the only
+   Crash an operator body can return (`<<` and `_`; `>>` with a negative count has already reported arithmetic-error, so its
+   refusal stays a reported error), and the wrapper of compile_and_link_files (fix 291322a, not modelled) turns it into the
+   reported error 'too-complex'.  Within the bound nothing crashes. *)
 Theorem C08_operators_no_crash :
   forall a b s,
     GenOperators.body_div a b <> Crash s /\ GenOperators.body_mod a b <> Crash s /\
-    GenOperators.body_lshift a b <> Crash s /\ GenOperators.body_rshift a b <> Crash s /\
-    GenOperators.body_lsh a b <> Crash s.
+    GenOperators.body_rshift a b <> Crash s /\
+    (GenOperators.body_lshift a b = Crash s -> s = "MemoryError"%string /\ GenOperators.MAX_SHIFT < b) /\
+    (GenOperators.body_lsh a b = Crash s -> s = "MemoryError"%string /\ GenOperators.MAX_SHIFT < b).
 Proof.
-  exact (fun a b s => conj (div_no_crash a b s) (conj (mod_no_crash a b s) (conj (lshift_no_crash a b s)
-          (conj (rshift_no_crash a b s) (lsh_no_crash a b s))))).
+  exact (fun a b s => conj (div_no_crash a b s) (conj (mod_no_crash a b s) (conj (rshift_no_crash a b s)
+          (conj (lshift_crash a b s) (lsh_crash a b s))))).
 Qed.
 Print Assumptions C08_operators_no_crash.
+Theorem C08_shifts_within_bound_no_crash :
+  forall a b s, b <= GenOperators.MAX_SHIFT ->
+    GenOperators.body_lshift a b <> Crash s /\ GenOperators.body_lsh a b <> Crash s.
+Proof. exact shifts_within_bound_no_crash. Qed.
+Print Assumptions C08_shifts_within_bound_no_crash.
 
 (* struct.pack("<H"/"<B") always gets a value in range: after get_as_int with the directive's typing, after
    `% 2**16` for relative operands, after the default 0 of `.ascii <n>` *)
@@ -284,14 +294,16 @@ Theorem C08_pattern_letter_lookup_no_crash :
 Proof. exact (fun c s => conj (reg_lookup_no_crash c s) (acc_lookup_no_crash c s)). Qed.
 Print Assumptions C08_pattern_letter_lookup_no_crash.
 
-(* the family in one statement.  PARTIAL: it says that none of the *modelled, guarded* partial operations can raise,
-   not that no input crashes the assembler (see NOT CLAIMED at the top of this file) *)
+(* the family in one statement.  PARTIAL: it says that none of the *modelled, guarded* partial operations can raise -- with ONE
+   exception spelled out: `<<` / `_` by more than MAX_SHIFT raise MemoryError on purpose (a refusal that the unmodelled wrapper of
+   compile_and_link_files reports as 'too-complex') -- not that no input crashes the assembler (see NOT CLAIMED at the top) *)
 Theorem C08_no_crash_partial :
   (forall addr count s, body_align addr count <> Crash s) /\
   (forall addr s, body_even addr <> Crash s /\ body_odd addr <> Crash s) /\
   (forall a b s, GenOperators.body_div a b <> Crash s /\ GenOperators.body_mod a b <> Crash s /\
-                 GenOperators.body_lshift a b <> Crash s /\ GenOperators.body_rshift a b <> Crash s /\
-                 GenOperators.body_lsh a b <> Crash s) /\
+                 GenOperators.body_rshift a b <> Crash s /\
+                 (GenOperators.body_lshift a b = Crash s -> s = "MemoryError"%string /\ GenOperators.MAX_SHIFT < b) /\
+                 (GenOperators.body_lsh a b = Crash s -> s = "MemoryError"%string /\ GenOperators.MAX_SHIFT < b)) /\
   (forall v s, pack_word v <> Crash s /\ pack_byte v <> Crash s /\ pack_dword v <> Crash s /\
                ascii_chunk v <> Crash s /\ pack_relative v <> Crash s) /\
   (forall code s, site_chr code <> Crash s) /\
@@ -318,6 +330,11 @@ Example C08_unguarded_mod_raises : GenGetAsInt.py_mod 5 0 = Crash "ZeroDivisionE
 Proof. vm_compute. reflexivity. Qed.
 Example C08_word_out_of_range_reported : pack_word 65536 = Err ["value-out-of-bounds"%string] /\ pack_H 65536 = Crash "struct.pack(<H)".
 Proof. vm_compute. split; reflexivity. Qed.
+Example C08_huge_shift_refused :
+  GenOperators.body_lshift 1 (2 ^ 32) = Crash "MemoryError" /\ GenOperators.body_lsh 1 65537 = Crash "MemoryError" /\
+  GenOperators.body_rshift 1 (- 2 ^ 32) = Err ["arithmetic-error"%string; "raised MemoryError"%string] /\
+  GenOperators.body_lshift 3 2 = Ok (12, []).
+Proof. vm_compute. repeat split; reflexivity. Qed.
 Example C08_chr_huge_reported : site_chr (2 ^ 64) = Err ["value-out-of-bounds"%string] /\ py_chr (2 ^ 64) = Crash "OverflowError".
 Proof. vm_compute. split; reflexivity. Qed.
 Example C08_octal_guard_needed : py_int [49%N; 56%N] 8 = Crash "ValueError" /\ octal_guard [49%N; 56%N] = false /\ octal_guard [49%N; 55%N] = true.
